@@ -33,11 +33,13 @@ def run(chk):
     spec = lib.run_lines(lib.model_driver(), [lib.req("accept", "refspec", t) for t, _ in cases])
     chk.cov["grammar_vs_reviewed_snapshot"] = [d[0] for d in lib.GRAMMAR_DIFFS["xml"]] or "identical"
     strict = lib.run_lines(lib.model_driver(), [lib.req("accept", "strict", t) for t, _ in cases])
+    # the reviewed grammar WITHOUT the repairs: what the recorded findings (and nothing else) let through
+    refcur = lib.run_lines(lib.model_driver(), [lib.req("accept", "ref", t) for t, _ in cases])
     findings = {f["id"]: f for f in lib.load_findings("C02") if f["kind"] == "known"}
     hist = {}
     mfail, tdis = [], []
     rejected_by_spec = 0
-    for (t, why), a, c, s, st in zip(cases, impl, cur, spec, strict):
+    for (t, why), a, c, s, st, rc in zip(cases, impl, cur, spec, strict, refcur):
         key = why.split(":")[0].split(",")[0]
         hist[key] = hist.get(key, 0) + 1
         nontrivial = s != "ok"          # an input the specification model does not accept completely
@@ -46,11 +48,13 @@ def run(chk):
         if a == "ok" and s != "ok":
             # the code reports a complete parse of something the specification model rejects
             # attribution: the model of the current source must reproduce the acceptance, and the
-            # specification-side repair that makes it a rejection names the finding
-            if c == "ok" and st != "ok" and "entity-wfc" in findings:
+            # specification-side repair that makes it a rejection names the finding; a recorded finding explains the
+            # acceptance only when the REVIEWED grammar without the repairs accepts too (the model of the current source
+            # follows a change of the grammar, the reviewed one does not)
+            if c == "ok" and rc == "ok" and st != "ok" and "entity-wfc" in findings:
                 chk.known_finding("entity-wfc " + findings["entity-wfc"]["text"])
                 chk.cov["known_finding_cases"] = chk.cov.get("known_finding_cases", 0) + 1
-            elif c == "ok" and st == "ok" and "name-lax" in findings:
+            elif c == "ok" and rc == "ok" and st == "ok" and "name-lax" in findings:
                 chk.known_finding("name-lax " + findings["name-lax"]["text"])
                 chk.cov["known_finding_cases"] = chk.cov.get("known_finding_cases", 0) + 1
             else:
